@@ -6,9 +6,9 @@
     broadcasts, any thread counts), every interleaving of caller and workers,
     any subset of panicking calls, spurious wake-ups included.  [code_cfg] is
     the configuration read from pool.rs by tools/extract_consts.py. *)
-From DivanV Require Import Base.Res Generated.Consts Generated.Consts2 Model.Pool Proofs.Pool Proofs.PoolLive Proofs.PoolCalls
+From DivanV Require Import Base.Res Generated.Consts Generated.Consts2 Model.Pool Model.PoolFail Proofs.PoolFail Proofs.Pool Proofs.PoolLive Proofs.PoolCalls
   Proofs.PoolViews Proofs.PoolSlots Proofs.PoolExamples Proofs.PoolBool Proofs.PoolMonitor Proofs.PoolVec.
-Import PoolM.
+Import PoolM PoolF.
 
 (** Obligations on the generated constants: the worker unparks iff [fetch_sub]
     returned 1, the caller waits in a [while] loop whose condition is "counter
@@ -184,3 +184,76 @@ Print Assumptions C06_nonvacuous.
 Theorem C06_payload_dropped_after_wait : pool_payload_drop_after_wait = true.
 Proof. reflexivity. Qed.
 Print Assumptions C06_payload_dropped_after_wait.
+
+(** * Failed thread creation (Model/PoolFail.v)
+
+    The extended relation [xstep] adds to the steps of Model/Pool.v the aborted
+    broadcast [XAbort n j]: under the [threads] lock, [j] missing threads were
+    created, the next creation was refused, the [expect] panicked (mutex
+    poisoned, recovered by the next [lock()]), and the caller left [broadcast]
+    before any send and before index 0.  [code_fcfg] is the shape of the code
+    (sender pushed after the successful spawn, poisoned lock recovered).
+
+    (a) From any state satisfying the pool invariants at a broadcast boundary an
+    aborted broadcast leaves a state satisfying the same invariants, whose
+    workers are the old ones plus the [j] created idle ones; nothing was handed
+    out, nothing was called, counter, token, numbering and records untouched. *)
+Theorem C06_fail_preserves_inv : forall scr s j n rest,
+  Inv s -> Inv2 scr s -> InvV code_cfg s -> InvS s ->
+  cst s = CIdle -> script s = n :: rest ->
+  let s' := st_abort s j rest in
+  Inv s' /\ (exists scr', Inv2 scr' s') /\ InvV code_cfg s' /\ InvS s'
+  /\ ws s' = ws s ++ repeat WIdle j /\ script s' = rest /\ cst s' = CIdle
+  /\ calls s' = calls s /\ panics s' = panics s /\ rc s' = rc s /\ token s' = token s
+  /\ cur s' = cur s /\ returned s' = returned s /\ bad s' = bad s.
+Proof. exact (fail_preserves_inv code_cfg). Qed.
+Print Assumptions C06_fail_preserves_inv.
+
+(** (b) Hence along EVERY execution of the extended relation (aborted
+    broadcasts anywhere in the script, any number of them) the C06 statements
+    hold: no worker touches a dead task block; every returned broadcast — in
+    particular every broadcast after an aborted one — had each index called
+    exactly once, its slots are indexed, its return happens-after all its calls
+    (given the two ordering obligations); outside a broadcast no worker is
+    before its decrement. *)
+Theorem C06_later_broadcasts_correct : forall scr x,
+  xreachable code_cfg code_fcfg scr x ->
+  bad (base x) = false
+  /\ (forall r, In r (returned (base x)) ->
+        once_per_index (base x) (r_b r) (r_n r) = true
+        /\ (forall i, In (r_b r, i) (calls (base x)) <-> i <= r_n r)
+        /\ r_slots r = expected_slots (base x) (r_b r) (r_n r)
+        /\ (is_release (c_dec code_cfg) = true -> is_acquire (c_load code_cfg) = true ->
+            view_has_all (r_b r) (r_n r) (r_view r) = true))
+  /\ NoDup (calls (base x))
+  /\ (in_broadcast (cst (base x)) = false -> Forall (fun w => any_pre w = false) (ws (base x))).
+Proof. exact (fun scr x => x_c06 code_cfg scr x C06_cfg_good). Qed.
+Print Assumptions C06_later_broadcasts_correct.
+
+(** The hypotheses are satisfiable: script [2; 2], first broadcast aborted after
+    thread 1 was created, the second creates thread 2, reuses thread 1, call 2
+    panics; one record. *)
+Theorem C06_fail_nonvacuous :
+  exists x, xreachable code_cfg code_fcfg [2; 2] x /\ xfinal x = true
+            /\ map r_n (returned (base x)) = [2] /\ length (ws (base x)) = 2
+            /\ map r_slots (returned (base x)) = [[Some 0; Some 1; None]].
+Proof. exact x_example. Qed.
+Print Assumptions C06_fail_nonvacuous.
+
+(** (c) The two seeded shapes are refuted by witnesses: with [lock().unwrap()]
+    a non-final state without any enabled step is reachable (the next broadcast
+    cannot take the poisoned lock); with the sender pushed before the spawn a
+    state is reachable in which [threads] holds a dead channel, counts a thread
+    that does not exist, and the next broadcast is not a step. *)
+Theorem C06_lock_not_recovered_refuted :
+  exists x, xreachable code_cfg fcfg_no_recover [1; 1] x /\ xfinal x = false
+            /\ script (base x) = [1] /\ forall xl, xstep code_cfg fcfg_no_recover x xl = None.
+Proof. exact lock_not_recovered_refuted. Qed.
+Print Assumptions C06_lock_not_recovered_refuted.
+
+Theorem C06_push_before_spawn_refuted :
+  exists x, xreachable code_cfg fcfg_push_first [2; 2] x
+            /\ In false (chans x) /\ length (chans x) <> length (ws (base x))
+            /\ script (base x) = [2] /\ xstep code_cfg fcfg_push_first x (XStep (EBegin 2)) = None.
+Proof. exact push_before_spawn_refuted. Qed.
+Print Assumptions C06_push_before_spawn_refuted.
